@@ -56,7 +56,7 @@ def run(tier):
             total += nb
             runs.append({"mode": mode, "alphabet": len(names), "depth": depth, "behaviours": r["behaviours"],
                          "offers": r["offers"], "verdicts": r["verdicts"], "diverging": len(r["divergences"])})
-            for s in r.get("samples", [])[:1]:
+            for s in (r.get("samples") or [])[:1]:
                 res.sample({"offers": [[x["b"], x["verdict"]] for x in json.loads(s)["offers"]]})
             for d in r["divergences"]:
                 f = match_finding("C03", d["msg"])
